@@ -281,6 +281,9 @@ def explore(ctx: Ctx):
             for sub in ([], ["log-rec"]):
                 cases.append(dict(algo=a, env="gymtwin", hp=0, num_envs=1, num_steps=4, total=13, key=keys[0], observers=sub, as_list=True))
         cross.append(dict(algo=a, env="tab", hp=0, num_envs=E, num_steps=T, total=total, key=keys[0], observers=["log-rec"] if a != "PPO" else OBSERVERS))
+    # purity property: a run-to-run difference that does not recur when the single case is re-executed in another process state
+    # (different call history) is itself evidence of hidden state behind learn()
+    ctx.accept_unreproduced |= {"C11/keys-do-not-matter", "C11/not-reproducible", "C11/observer-changes-result", "C11/crossproc"}
     ctx.run_parallel("observers", cases, workers=8, group_key=lambda c: (c["algo"], c["env"], c["hp"]), threads=2)
     ctx.run_parallel("keys", kcases, workers=5, group_key=lambda c: c["algo"], threads=2)
     ctx.run("crossproc", cross)
